@@ -265,7 +265,9 @@ func refPattern(s string) (since, until int, valid bool, skip bool) {
 		since = mon1 + (w-1)*7
 		until = since + 6
 		if !representable(since, until) {
-			return 0, 0, true, true
+			// the week extends beyond 9999-12-31: there is no period klog could denote, so the
+			// pattern has to be rejected (it used to panic: finding F14)
+			return 0, 0, false, false
 		}
 		return since, until, true, false
 	}
